@@ -36,6 +36,7 @@ EXTENDS Integers, Sequences, FiniteSets, TLC
 
 CONSTANTS
   Tokens,         \* nasty value tokens ("T_...")
+  CoreTokens,     \* the subset used on every slot in the quick tier (all Tokens go to one slot per syntactic position)
   DelimTokens,    \* tokens admissible as csv delimiter (one valid rune first)
   OpTokens,       \* documented comparison operators of assert/response size
   DropField,      \* negative control: a field the oracle forgets ("" = none)
@@ -67,6 +68,7 @@ Rep(x, n)  == [i \in 1..n |-> x]
 \* value 0 = left out everywhere; MaxVal = the richest form
 MaxVal == [
   src_csv |-> 1, csv_fields |-> 1, csv_ifl |-> 2, csv_delim |-> 1, src_json |-> 1, src_vars |-> 1,
+  var_num |-> 1,    \* a `variables` entry written as a bare number (documented example: port = 8090)
   hdr |-> 3,        \* headers / metadata: 0 left out, 1 empty map, 2 one entry, 3 two entries
   tag |-> 1,
   body |-> 1,       \* http only
@@ -79,7 +81,7 @@ MaxVal == [
   form |-> 3 ]      \* shape of scenario 1's request list
 
 AllFlags   == DOMAIN MaxVal
-SrcFlags   == {"src_csv", "csv_fields", "csv_ifl", "csv_delim", "src_json", "src_vars"}
+SrcFlags   == {"src_csv", "csv_fields", "csv_ifl", "csv_delim", "src_json", "src_vars", "var_num"}
 ScFlags    == {"sc2", "w1", "w2", "mwt1", "mwt2", "form"}
 HttpOnly   == {"body", "templ", "p_hdr", "p_json", "p_xpath", "p_rev", "a_hdr", "a_size"}
 Flags(k)   == IF k = "http" THEN AllFlags ELSE AllFlags \ HttpOnly
@@ -92,6 +94,7 @@ FMax(k, x) == IF x \notin Flags(k) THEN 0
 NormF(k, f) == [x \in AllFlags |->
    IF x \notin Flags(k) THEN 0
    ELSE IF x \in {"csv_fields", "csv_ifl", "csv_delim"} /\ f["src_csv"] = 0 THEN 0
+   ELSE IF x = "var_num" /\ f["src_vars"] = 0 THEN 0
    ELSE IF x \in {"a_hdr", "a_body", "a_status", "a_size"} /\ f["p_assert"] = 0 THEN 0
    ELSE IF x \in {"w2", "mwt2"} /\ f["sc2"] = 0 THEN 0
    ELSE IF x = "p_rev" /\ f["p_hdr"] + f["p_json"] + f["p_xpath"] + f["p_assert"] < 2 THEN 0
@@ -120,27 +123,33 @@ HttpSlots == AllSlots \ {"call", "payload", "pre2_k", "pre2_v"}
 GrpcSlots == AllSlots \ {"method", "uri", "body", "ph_k", "ph_v", "pj_k", "pj_v", "px_k", "px_v", "ah_k", "ah_v", "op"}
 Slots(k)  == IF k = "http" THEN HttpSlots ELSE GrpcSlots
 \* a file name cannot be empty (the provider opens the file); delimiter and operator have documented alphabets
-SlotTokens(x) == IF x = "csv_delim" THEN DelimTokens ELSE IF x = "op" THEN OpTokens
-                 ELSE IF x \in {"csv_file", "json_file"} THEN Tokens \ {Empty} ELSE Tokens
+SlotAlphabet(x) == IF x = "csv_delim" THEN DelimTokens ELSE IF x = "op" THEN OpTokens
+                   ELSE IF x \in {"csv_file", "json_file"} THEN Tokens \ {Empty} ELSE Tokens
+\* one slot per syntactic position gets the whole alphabet in the quick tier: attribute string, map key, map value,
+\* list element, body / payload text, variables key and value; the thorough tier substitutes everything everywhere
+FullSlots(k) == IF k = "http" THEN {"uri", "h_k1", "h_v2", "ab_2", "body", "var_v2", "csv_delim", "op"}
+                ELSE {"h_k2", "ab_1", "payload", "csv_delim"}
+SlotTokens(k, x) == IF Tier = "thorough" \/ x \in FullSlots(k) THEN SlotAlphabet(x) ELSE SlotAlphabet(x) \cap CoreTokens
 
-BaseN == [w1 |-> 4, w2 |-> 6, mwt1 |-> 1000, mwt2 |-> 10, cnt |-> 2, sl1 |-> 30, sl2 |-> 50, status |-> 200, size |-> 10000]
+BaseN == [w1 |-> 4, w2 |-> 6, mwt1 |-> 1000, mwt2 |-> 10, cnt |-> 2, sl1 |-> 30, sl2 |-> 50, status |-> 200, size |-> 10000, vnum |-> 8090]
 NumAlts == [w1 |-> {1, 3, 12, 50}, w2 |-> {1, 4, 9}, mwt1 |-> {0, 1, 3600000}, mwt2 |-> {1000},
-            cnt |-> {1, 3}, sl1 |-> {0, 100}, sl2 |-> {1, 60000}, status |-> {0, 404}, size |-> {0, 1}]
+            cnt |-> {1, 3}, sl1 |-> {0, 100}, sl2 |-> {1, 60000}, status |-> {0, 404}, size |-> {0, 1}, vnum |-> {}]
 
 \* ---------------------------------------------------------------- key -> description
 Pairs1(s) == << <<s.h_k1, s.h_v1>> >>
 Pairs2(s) == << <<s.h_k1, s.h_v1>>, <<s.h_k2, s.h_v2>> >>
 MapFlag(v, s) == IF v = 0 THEN <<>> ELSE IF v = 1 THEN << <<>> >> ELSE IF v = 2 THEN <<Pairs1(s)>> ELSE <<Pairs2(s)>>
 
-Sources(f, s) ==
+Sources(f, s, n) ==
   (IF f.src_csv = 1 THEN << [type |-> "file/csv", name |-> "users", file |-> <<s.csv_file>>,
                              fields |-> Opt(f.csv_fields = 1, <<s.csv_f1, s.csv_f2>>),
                              ifl |-> IF f.csv_ifl = 0 THEN <<>> ELSE <<f.csv_ifl = 1>>,
-                             delim |-> Opt(f.csv_delim = 1, s.csv_delim), variables |-> <<>>] >> ELSE <<>>)
+                             delim |-> Opt(f.csv_delim = 1, s.csv_delim), variables |-> <<>>, numvars |-> <<>>] >> ELSE <<>>)
   \o (IF f.src_json = 1 THEN << [type |-> "file/json", name |-> "filter_src", file |-> <<s.json_file>>,
-                                 fields |-> <<>>, ifl |-> <<>>, delim |-> <<>>, variables |-> <<>>] >> ELSE <<>>)
+                                 fields |-> <<>>, ifl |-> <<>>, delim |-> <<>>, variables |-> <<>>, numvars |-> <<>>] >> ELSE <<>>)
   \o (IF f.src_vars = 1 THEN << [type |-> "variables", name |-> "global", file |-> <<>>, fields |-> <<>>, ifl |-> <<>>,
-                                 delim |-> <<>>, variables |-> << << <<s.var_k1, s.var_v1>>, <<s.var_k2, s.var_v2>> >> >>] >> ELSE <<>>)
+                                 delim |-> <<>>, variables |-> << << <<s.var_k1, s.var_v1>>, <<s.var_k2, s.var_v2>> >> >>,
+                                 numvars |-> IF f.var_num = 1 THEN << [key |-> "rate", val |-> n.vnum] >> ELSE <<>>] >> ELSE <<>>)
 
 NoPost == [type |-> "", mapping |-> <<>>, headers |-> <<>>, body |-> <<>>, status |-> <<>>, size |-> <<>>]
 HttpPosts(f, s, n) ==
@@ -185,7 +194,7 @@ Scenarios(f, n) ==
                             steps |-> << St("r2", <<>>), St("r1", <<1>>) >>] >> ELSE <<>>)
 
 Build(c) == [kind |-> c.k,
-             sources |-> Sources(c.f, c.s),
+             sources |-> Sources(c.f, c.s, c.n),
              requests |-> IF c.k = "http" THEN Requests(c.f, c.s, c.n) ELSE <<>>,
              calls |-> IF c.k = "grpc" THEN Calls(c.f, c.s, c.n) ELSE <<>>,
              scenarios |-> Scenarios(c.f, c.n)]
@@ -195,7 +204,10 @@ Drop(fld, v, dflt) == IF DropField = fld THEN dflt ELSE v
 
 DSource(x) == [type |-> x.type, name |-> x.name, file |-> OptStr(x.file), fields |-> OptSeq(x.fields),
                ifl |-> IF x.ifl = <<>> THEN FALSE ELSE x.ifl[1], delim |-> Drop("delim", OptStr(x.delim), Empty),
-               variables |-> OptMap(x.variables)]
+               \* a value written as a number stays a number (abstractly "#<n>"; strings are tokens)
+               variables |-> [k \in DOMAIN OptMap(x.variables) \cup {x.numvars[i].key : i \in DOMAIN x.numvars} |->
+                                IF k \in DOMAIN OptMap(x.variables) THEN OptMap(x.variables)[k]
+                                ELSE "#" \o ToString(x.numvars[CHOOSE i \in DOMAIN x.numvars : x.numvars[i].key = k].val)]]
 DPost(p) == [type |-> p.type, mapping |-> OptMap(p.mapping), headers |-> OptMap(p.headers), body |-> OptSeq(p.body),
              status |-> OptNum(p.status), size |-> Drop("size", p.size, <<>>)]
 DRequest(r) == [name |-> r.name, method |-> r.method, uri |-> r.uri, headers |-> OptMap(r.headers),
@@ -246,21 +258,25 @@ AScenario(d, x) == [name |-> x.name, mwt |-> Drop("mwt", OptNum(x.mwt), 0), step
 Ammo(d) == Flat([i \in DOMAIN d.scenarios |-> Rep(AScenario(d, d.scenarios[i]), Copies(d, i))])
 
 \* ---------------------------------------------------------------- the case space
-BaseKey(k, hi) == [k |-> k, f |-> [x \in AllFlags |-> IF hi THEN FMax(k, x) ELSE 0], s |-> BaseS, n |-> BaseN]
+\* the rich base has every flag at its richest value, except var_num (see design/C16.md: HCL turns the number into a
+\* string -- a known finding that must not shadow every other case)
+BaseKey(k, hi) == [k |-> k, f |-> [x \in AllFlags |-> IF hi /\ x # "var_num" THEN FMax(k, x) ELSE 0], s |-> BaseS, n |-> BaseN]
 WithF(c, g)    == [c EXCEPT !.f = NormF(c.k, [x \in AllFlags |-> IF x \in DOMAIN g THEN g[x] ELSE c.f[x]])]
 FullOn(c, G)   == { WithF(c, g) : g \in {h \in [G -> 0..3] : \A x \in G : h[x] <= FMax(c.k, x)} }
 
 \* buckets partition the work (and let TLC's workers enumerate in parallel): one per flag group, per pair of
-\* flags (on the richest description; on the poorest one singly, in the thorough tier pairwise), per slot
+\* flags (on the richest description; on the poorest one singly, in the thorough tier pairwise; the quick tier takes
+\* pairs for http only -- grpc shares the code for sources and scenarios and has its own flags in two full groups), per slot
 FlagBuckets(k) == { [k |-> "bucket", kind |-> k, fam |-> "flags", hi |-> TRUE, G |-> G] : G \in Groups(k) }
-                  \cup { [k |-> "bucket", kind |-> k, fam |-> "flags", hi |-> TRUE, G |-> {a, b}] : a, b \in Flags(k) }
+                  \cup { [k |-> "bucket", kind |-> k, fam |-> "flags", hi |-> TRUE, G |-> {a, b}] :
+                            <<a, b>> \in {p \in Flags(k) \X Flags(k) : Tier = "thorough" \/ k = "http" \/ p[1] = p[2]} }
                   \cup { [k |-> "bucket", kind |-> k, fam |-> "flags", hi |-> FALSE, G |-> {a, b}] :
                             <<a, b>> \in {p \in Flags(k) \X Flags(k) : Tier = "thorough" \/ p[1] = p[2]} }
 SlotBuckets(k) == { [k |-> "bucket", kind |-> k, fam |-> "slot", x |-> x] : x \in Slots(k) }
 NumBuckets(k)  == { [k |-> "bucket", kind |-> k, fam |-> "num", x |-> x] : x \in DOMAIN BaseN }
 Buckets        == UNION { FlagBuckets(k) \cup SlotBuckets(k) \cup NumBuckets(k) : k \in {"http", "grpc"} }
 CasesIn(b)     == CASE b.fam = "flags" -> FullOn(BaseKey(b.kind, b.hi), b.G)
-                    [] b.fam = "slot"  -> { [BaseKey(b.kind, TRUE) EXCEPT !.s[b.x] = t] : t \in SlotTokens(b.x) }
+                    [] b.fam = "slot"  -> { [BaseKey(b.kind, TRUE) EXCEPT !.s[b.x] = t] : t \in SlotTokens(b.kind, b.x) }
                     [] b.fam = "num"   -> { [BaseKey(b.kind, TRUE) EXCEPT !.n[b.x] = v] : v \in NumAlts[b.x] }
 Cases          == UNION { CasesIn(b) : b \in Buckets }
 
